@@ -298,6 +298,10 @@ func (d *Directory) WriteDirectory(wcd, weod io.Writer, forceZip64 bool) error {
 		if err := buf.Flush(); err != nil {
 			return err
 		}
+		if weod == nil {
+			// caller only wants the directory entries
+			return nil
+		}
 		buf.Reset(weod)
 	} else if weod == nil {
 		return nil
